@@ -446,7 +446,7 @@ end TOps
 namespace Toy
 
 def bn2 : BNorm Int := ⟨[1, 2], [0, 1], [1, 0], [3, 0], 1⟩
-def mlp : MLP Int := ⟨[⟨lin [[1, 0], [1, 1]] [0, 1], .batch bn2⟩, ⟨lin [[2, 0], [0, 1]] [0, 0], .layer ln2⟩], lin [[1, 1], [1, -1]] [0, 1], 2⟩
+def mlp : MLP Int := ⟨[⟨lin [[1, 0], [1, 1]] [0, 1], .batch bn2⟩, ⟨lin [[2, 0], [0, 1]] [0, 0], .none⟩], lin [[1, 1], [1, -1]] [0, 1], 2⟩
 def resnet : ResNet Int :=
   ⟨[⟨lin [[1, 0, 0, 1, 0, 0], [0, 1, 0, 0, 1, 1]] [0, 0], lin [[1, 1], [0, 1]] [1, 0], .batch bn2, .none,
       some (lin [[1, 0, 0, 0, 0, 1], [0, 0, 1, 0, 0, 0]] [0, 0])⟩], ln2, lin [[1, 2]] [0]⟩
